@@ -185,7 +185,10 @@ class Ident(object):
 
     def __init__(self, empty_seq_is_none=True, empty_bytes_is_none=True,
                  empty_wrapped_is_none=False, empty_text_is_none=False,
-                 none_obj_is_empty=False):
+                 none_obj_is_empty=False, leafless_obj_is_none=False):
+        # an object none of whose members carries a leaf value is identified with None
+        # (flat key/value forms cannot tell them apart)
+        self.leafless_obj_is_none = leafless_obj_is_none
         self.empty_seq_is_none = empty_seq_is_none
         self.empty_bytes_is_none = empty_bytes_is_none
         self.empty_wrapped_is_none = empty_wrapped_is_none
@@ -264,6 +267,8 @@ def value_eq(B, t, got, exp, ident=XML_IDENT, path="", exact_class=False):
         return None
     if k == "ref":
         if exp is None:
+            if got is not None and ident.leafless_obj_is_none:
+                return value_eq(B, t, got, {"$obj": t["n"], "f": {}}, ident, path, False)
             return None if got is None else "%s: expected None, got %r" % (path, got)
         if got is None:
             return "%s: expected %s object, got None" % (path, exp.get("$obj", t["n"]))
